@@ -6,7 +6,7 @@
 (* with the real netlist; the DUT is started from reset (count 0) and from a   *)
 (* seeded state four counts below saturation (cfg.seeded = 1).                 *)
 (*   iv = <<pulse>>      o = <<lo, hi>>                                        *)
-EXTENDS Integers, Sequences, TLC, Json, IOUtils
+EXTENDS Integers, Sequences, TLC, Json, IOUtils, GraphLookup
 G == JsonDeserialize(IOEnv.GRAPH)
 NDuts == Len(G.duts)
 VARIABLES d, s, lo, hi, pp, left, obs
@@ -19,12 +19,11 @@ Min(a, b) == IF a < b THEN a ELSE b
 Max(a, b) == IF a > b THEN a ELSE b
 Step(iv) ==
   /\ s >= 0
-  /\ LET k == ToString(iv) IN
-       IF k \in DOMAIN G.duts[d].succ[s + 1]
-       THEN LET e == G.duts[d].succ[s + 1][k]
-                nlo == e.o[1]
-                nhi == e.o[2]
-            IN /\ s' = e.d /\ d' = d
+  /\ LET ed == GLookup(G.duts[d].succ[s + 1], iv) IN
+       IF ed # <<>>
+       THEN LET nlo == ed[2][1]
+                nhi == ed[2][2]
+            IN /\ s' = ed[3] /\ d' = d
                \* lo/hi/pp: views and pulse of the previous cycle (-1: none yet)
                /\ lo' = nlo /\ hi' = nhi /\ pp' = iv[1] /\ left' = left - iv[1]
                /\ obs' = [okcount |-> (lo >= 0 =>
